@@ -497,8 +497,14 @@ def process(template_path, out=None, unit=None, depth=0):
                         raise AnchorLoss('%s: subst anchor `%s` missing in %s' % (unit, a, sel))
                     text2 = text2.replace(a, b)
                     log.append('T5 type subst %s -> %s' % (a, b))
-            if 'pubfields' in opts:
-                pass
+            for o in opts:
+                if o.startswith('rrg='):
+                    text2 = '#[verifier::reject_recursive_types_in_ground_variants(%s)]\n' % o[4:] + text2
+                    log.append('T3 #[verifier::reject_recursive_types_in_ground_variants(%s)] added' % o[4:])
+                if o.startswith('art='):
+                    # verifier attribute only: the generic parameter may be instantiated with a type that contains this one
+                    text2 = '#[verifier::accept_recursive_types(%s)]\n' % o[4:] + text2
+                    log.append('T3 #[verifier::accept_recursive_types(%s)] added' % o[4:])
             meta = {'unit': unit, 'file': rel, 'selector': sel, 'src_line': line_of(src, it.kw),
                     'src_end_line': line_of(src, it.end), 'sha256': sha(text), 'transforms': log, 'role': 'type/item'}
             out.items.append(meta)
